@@ -500,7 +500,7 @@ impl Prop for GeneratedVoice {
         // the defaults are those of the header also when the Condition served another voice before
         // (options the new header does not list fall back to the format defaults, not to the old voice)
         if c.labels.len() % 3 == 0 {
-            let prior = super::c01::prior_voice_set(c.labels.len() % 2 == 0)?;
+            let prior = if c.labels.len() % 4 == 1 { super::c01::prior_lsp_log_gain_set()? } else { super::c01::prior_voice_set(c.labels.len() % 2 == 0)? };
             let mut cond = jbonsai::Condition::default();
             let ok = cond.load_model(&prior).is_ok() && cond.load_model(&engine.voices).is_ok();
             ensure!(ok, "engine-defaults", "Condition::load_model failed on valid voices");
